@@ -11,6 +11,8 @@ def main():
     scratch = tempfile.mkdtemp(prefix="pv_%s_" % a.prop)
     os.environ["HOME"] = scratch          # PrimAITE writes under ~/primaite
     os.environ["PV_SCRATCH"] = scratch
+    import logging
+    logging.disable(logging.CRITICAL)
     from lib.common import Check
     ck = Check(a.prop, a.tier, seed, scratch)
     try:
